@@ -341,6 +341,18 @@ def run(ctx):
             fails.append(({'n_ptr': n, 'gap': g, 'qu': qu}, why))
         ctx.count(('w', n, g, qu), nontrivial=True)
         ctx.hist(f"wire:packets={max(len(v) for v in [[m for t2, m in res['sends'] if t2 == t] for t, _ in res['sends']] or [[1]])}")
+    # the pacing of a lookup's queries (first QU unless forced, later QM, one second apart after the second): the real async_request loop
+    from props import c18
+    for _ in range(80 if quick else 1500):
+        sc = c18.gen_scenario(rng)
+        sc['pre'] = [p for p in sc['pre'] if all(r['kind'] != 'KAddress' for r in p[1])]     # keep the lookup busy: no cached addresses
+        sc['timeout'] = rng.choice([1000, 3000, 10000])
+        res = c18.run_scenario(sc)
+        why = c18.oracle_questions(sc, res) if not res['escaped'] else f"exception in the event loop: {res['escaped'][0]}"
+        if why:
+            fails.append(({'lookup_scenario': sc}, why))
+        ctx.count(('l', repr(sc)), nontrivial=True)
+        ctx.hist(f"lookup-queries:{min(len(res['sends']), 6)}")
     ctx.sample(jsonable({k: v for k, v in coq_cases[0][2].items()}))
     ctx.cov['rule'] = ("(1) caches of 0-120 pointers (+ SRV/TXT/A/AAAA) aged around half of the TTL, question histories 0/1/998/999/1000/1001 ms old with subsets or supersets of the "
                        "known answers, forced or free question type, browser queries (1-2 types) and lookup queries: questions, QU bits, known-answer sets with their stamps, "
